@@ -657,7 +657,9 @@ def consistency_gates(ctx, fields):
         if not (any("Iterator::next" in x or "arg1" in x for x in sides) and any("TestCaseConfig::empty" in x or "phi[" in x for x in sides)):
             continue
         diff_edge = be[0] if ((method_name(tree.a) == "PartialEq::ne") != neg) else be[1]
-        reach = set(f.reachable(diff_edge, removed_edges=back))
+        # (path-sensitive: a generic helper that was inlined returns `Err(..)` and the caller's `?` takes it from there - the Continue edge is not feasible)
+        from ..cfgq import explore as _explore
+        reach = set(_explore(f, diff_edge, {}, removed_edges=back).keys())
         found[names[0]] = (sb, not (reach & tails) and not (reach & oks))
     for key in fields:
         hit = found.get(key)
@@ -683,3 +685,5 @@ def run(ctx):
     ctx.run_rule("R13.10", "the keys that drive the output transformations (keep_crlf, strip_ansi_escaping, output_stream) are merged receiver-first from their own field of the lower layer - no cross-wiring (shared with C16 R16.1) [E-FLOW]",
                  lambda c: c16._merge_fields(c, c.prog.fn("TestCaseConfig::with_defaults_from"), "TestCaseConfig", only={"keep_crlf", "strip_ansi_escaping", "output_stream"}), floor=3)
     ctx.run_rule("R13.11", "single-script execution: test cases that disagree on keep_crlf / output_stream are rejected by compile_testcase (one script, one configuration) [E-PATH]", lambda c: consistency_gates(c, ["keep_crlf", "output_stream"]), floor=2)
+    from . import c20
+    ctx.run_rule("R13.12", "per test: every continuing loop path of StatefulExecutor::execute_all pushes exactly one Output (also the Detached placeholder), so outputs and test cases pair positionally (shared with C20 R20.3) [E-STATE]", c20.r20_3, floor=4)
